@@ -219,7 +219,10 @@ func (d dialer) Dial(network, address string) (net.Conn, error) {
 // CreateDialer implements transport.Net.
 func (t *TNet) CreateDialer(d *net.Dialer) transport.Dialer { return dialer{t: t, d: d} }
 
-type listenConfig struct{ t *TNet }
+type listenConfig struct {
+	t     *TNet
+	reuse bool // a Control function was supplied: pion's generators use it for reuseport.Control
+}
 
 func (lc listenConfig) Listen(_ context.Context, network, address string) (net.Listener, error) {
 	ip, port, err := splitHostPort(address)
@@ -229,7 +232,7 @@ func (lc listenConfig) Listen(_ context.Context, network, address string) (net.L
 	if lc.t.BindHook != nil {
 		lc.t.BindHook(network, ip, port)
 	}
-	l, err := lc.t.N.ListenTCPAt(network, ip, port)
+	l, err := lc.t.N.ListenTCPOpt(network, ip, port, lc.reuse)
 	if err != nil {
 		return nil, err
 	}
@@ -238,8 +241,22 @@ func (lc listenConfig) Listen(_ context.Context, network, address string) (net.L
 }
 
 func (lc listenConfig) ListenPacket(_ context.Context, network, address string) (net.PacketConn, error) {
-	return lc.t.ListenPacket(network, address)
+	ip, port, err := splitHostPort(address)
+	if err != nil {
+		return nil, err
+	}
+	if lc.t.BindHook != nil {
+		lc.t.BindHook(network, ip, port)
+	}
+	s, err := lc.t.N.BindUDPOpt(network, ip, port, lc.reuse)
+	if err != nil {
+		return nil, err
+	}
+
+	return s, nil
 }
 
 // CreateListenConfig implements transport.Net.
-func (t *TNet) CreateListenConfig(*net.ListenConfig) transport.ListenConfig { return listenConfig{t: t} }
+func (t *TNet) CreateListenConfig(lc *net.ListenConfig) transport.ListenConfig {
+	return listenConfig{t: t, reuse: lc != nil && lc.Control != nil}
+}
